@@ -408,6 +408,53 @@ func c06Construct(k *fw.K, shape []int) {
 			msg = "TensorOf/At: " + e.Error()
 			return
 		}
+		if len(shape) == 2 {
+			// TensorOf on rows that are WINDOWS into one buffer (in place, permuted, or with one row living elsewhere while the
+			// buffer still holds stale values there): the tensor holds what the rows hold
+			d0, d1 := shape[0], shape[1]
+			for variant := 0; variant < 3; variant++ {
+				buf := make([]float64, d0*d1+3)
+				for i := range buf {
+					buf[i] = 777
+				}
+				rows := make([][]float64, d0)
+				perm := k.Rng.Perm(d0)
+				for i := range rows {
+					at := i
+					if variant == 1 {
+						at = perm[i]
+					}
+					rows[i] = buf[at*d1 : (at+1)*d1]
+					copy(rows[i], x.Data[i*d1:(i+1)*d1])
+				}
+				if variant == 2 && d0 >= 2 {
+					mid := d0 / 2
+					if d0 >= 3 {
+						mid = 1 + k.Rng.Intn(d0-2)
+					}
+					rows[mid] = append([]float64(nil), x.Data[mid*d1:(mid+1)*d1]...)
+					for j := 0; j < d1; j++ {
+						buf[mid*d1+j] = 777 // stale values where the row used to be
+					}
+				}
+				tw, err := tensor.TensorOf(rows, nil)
+				if err != nil {
+					msg = "TensorOf(rows that are windows into one buffer): " + err.Error()
+					return
+				}
+				if e := rt.Compare(tw, x, 0, 0, nil, 0); e != nil {
+					msg = fmt.Sprintf("TensorOf(rows that are windows into one buffer, variant %d): %v", variant, e)
+					return
+				}
+				for i := range buf {
+					buf[i] = -1 // the caller's buffer is the caller's: overwriting it afterwards must not reach the tensor
+				}
+				if e := rt.Compare(tw, x, 0, 0, nil, 0); e != nil {
+					msg = fmt.Sprintf("TensorOf kept a reference to the caller's buffer (variant %d): %v", variant, e)
+					return
+				}
+			}
+		}
 		v := x.Data[0]
 		for name, f := range map[string]func() (tensor.Tensor, error){
 			"Full":  func() (tensor.Tensor, error) { return tensor.Full(ref.CopyInts(shape), v, nil) },
